@@ -9,6 +9,7 @@ import (
 // MutexState is the modelled state of a sync.Mutex; Real is used outside controlled executions.
 type MutexState struct {
 	locked bool
+	vc     vclock
 	Real   sync.Mutex
 }
 
@@ -40,6 +41,7 @@ func (m *MutexState) Unlock() {
 		panic("sync: unlock of unlocked mutex")
 	}
 	m.locked = false
+	releaseInto(rs.current, &m.vc, true)
 	rs.mu.Unlock()
 }
 
@@ -48,6 +50,7 @@ type RWState struct {
 	readers  int
 	writer   bool
 	pendingW int
+	wvc, rvc vclock
 	Real     sync.RWMutex
 }
 
@@ -70,6 +73,7 @@ func (m *RWState) RUnlock() {
 		panic("sync: RUnlock of unlocked RWMutex")
 	}
 	m.readers--
+	releaseInto(rs.current, &m.rvc, false)
 	rs.mu.Unlock()
 }
 
@@ -95,12 +99,14 @@ func (m *RWState) Unlock() {
 		panic("sync: Unlock of unlocked RWMutex")
 	}
 	m.writer = false
+	releaseInto(rs.current, &m.wvc, true)
 	rs.mu.Unlock()
 }
 
 // WGState models sync.WaitGroup.
 type WGState struct {
 	n    int
+	vc   vclock
 	Real sync.WaitGroup
 }
 
@@ -111,6 +117,9 @@ func (w *WGState) Add(d int) {
 	}
 	rs.mu.Lock()
 	w.n += d
+	if d < 0 {
+		releaseInto(rs.current, &w.vc, false)
+	}
 	neg := w.n < 0
 	rs.mu.Unlock()
 	if neg {
@@ -131,6 +140,7 @@ func (w *WGState) Wait() {
 // SemState models golang.org/x/sync/semaphore.Weighted.
 type SemState struct {
 	size, cur int64
+	vc        vclock
 	realCh    chan struct{}
 }
 
@@ -169,6 +179,7 @@ func (s *SemState) TryAcquire(n int64) bool {
 	defer rs.mu.Unlock()
 	if s.cur+n <= s.size {
 		s.cur += n
+		acquireVC(rs.current, s.vc)
 		return true
 	}
 	return false
@@ -183,6 +194,7 @@ func (s *SemState) Release(n int64) {
 	}
 	rs.mu.Lock()
 	s.cur -= n
+	releaseInto(rs.current, &s.vc, false)
 	neg := s.cur < 0
 	rs.mu.Unlock()
 	if neg {
